@@ -36,6 +36,8 @@ FLOATS = [0.0, -0.0, 1.0, 0.5, -1.5, 2.0, 1e308, 5e-324, 3.0]
 SUBSCHEMAS = [{}, {"type": "string"}, {"minimum": "x"}, {"type": 5}, {"items": {"type": []}}, {"maxLength": -1}, {"enum": []},
               {"required": "a"}, {"properties": {"a": 1}}, {"x-unknown": None}, {"minimum": 0, "maximum": 1}]
 SUBSCHEMAS_BOOL = [True, False]
+SMALL = [False]          # set by a condition factory: use a 4-entry subschema catalogue (quick tier of C03)
+SUBSCHEMAS_SMALL = [{}, {"type": "string"}, {"minimum": 0, "maximum": 1}, {"type": 5}]
 
 # kinds tried per keyword family (every keyword gets the scalar kinds and the flat arrays/objects; schema-valued and
 # map-valued keywords additionally get the structured kinds)
@@ -55,7 +57,7 @@ def kinds_for(k):
 
 def value_of(d, kind, v):
     """materialise the keyword value from the symbolic parameter"""
-    subs = SUBSCHEMAS + (SUBSCHEMAS_BOOL if d >= 6 else [])
+    subs = (SUBSCHEMAS_SMALL if SMALL[0] else SUBSCHEMAS) + (SUBSCHEMAS_BOOL if d >= 6 else [])
     if kind == "float":
         return pick(FLOATS, v)
     if kind == "obj_arr_str":
@@ -74,7 +76,7 @@ def value_of(d, kind, v):
 
 
 def value_ok(d, kind, v):
-    subs = len(SUBSCHEMAS) + (2 if d >= 6 else 0)
+    subs = len(SUBSCHEMAS_SMALL if SMALL[0] else SUBSCHEMAS) + (2 if d >= 6 else 0)
     if kind == "float":
         return 0 <= v < len(FLOATS)
     if kind == "subschema":
